@@ -167,7 +167,7 @@ static void setupExact(SoPlex& sp, const Case& c)
    sp.setRealParam(SoPlex::OBJ_OFFSET, dq(c.lp.offset));
 }
 // a verdict of a limited exact run must be true (exactly), an abort must be the one that belongs to the limit
-static std::string judgeExact(SoPlex& sp, const Case& c, const std::string& kind, int allowedAbort, long iterLimit)
+static std::string judgeExact(SoPlex& sp, const Case& c, const std::string& kind, int allowedAbort, long iterLimit, long limitValue = -1)
 {
    Status st = sp.status();
    std::ostringstream e;
@@ -198,6 +198,15 @@ static std::string judgeExact(SoPlex& sp, const Case& c, const std::string& kind
    }
    else if((int) st != allowedAbort)
    {
+      // known finding C16/exact-iterlimit-error-status: exact solve stopped by a limit while it is inside a fallback (presolve
+      // verdict not yet confirmed, or a floating-point solve that threw and made it switch to the multiprecision solver):
+      // the error flag wins over the stop flags and the status is ERROR instead of ABORT_ITER / ABORT_TIME. Signature: status
+      // ERROR of an exact solve while a limit is in force (allowedAbort names it)
+      if(st == Solver::ERROR && allowedAbort != -12345 && knownKey("exact-iterlimit-error-status"))
+      {
+         ev().count("excluded_known.exact-iterlimit-error-status");
+         return "";
+      }
       e << kind << ": status " << statusName(st) << " instead of " << statusName(allowedAbort) << " or a verdict";
       return e.str();
    }
@@ -247,6 +256,14 @@ static Verdict runExact(const Case& c)
       {
          return kind + ": resume threw: " + x.what().c_str();
       }
+      // known finding C16/exact-iterlimit-error-status, resume form: the same ERROR when the resumed exact solve starts with a
+      // presolve verdict (simplifier on, LP without finite optimum) that the floating-point solver does not get to confirm
+      if(st == Solver::ERROR && refCls != CL_OPT && sp.intParam(SoPlex::SIMPLIFIER) != SoPlex::SIMPLIFIER_OFF
+            && knownKey("exact-iterlimit-error-status"))
+      {
+         ev().count("excluded_known.exact-iterlimit-error-status.resume");
+         return "";
+      }
       if(!classesAgree(statusClass(st), refCls) || statusClass(st) == CL_UNKNOWN)
          return kind + ": after lifting the limit the exact solve ends " + statusName(st) + " but the uninterrupted one ends " + statusName(refStatus);
       return judgeExact(sp, c, kind + " (resumed)", -12345, -1);
@@ -275,7 +292,7 @@ static Verdict runExact(const Case& c)
          aborted++;
          e.count("exact.aborted.iterlimit");
       }
-      std::string m = judgeExact(sp, c, "exact iterlimit", Solver::ABORT_ITER, k);
+      std::string m = judgeExact(sp, c, "exact iterlimit", Solver::ABORT_ITER, k, k);
       if(m.empty()) m = resume(sp, "exact iterlimit");
       if(!m.empty())
       {
@@ -307,7 +324,7 @@ static Verdict runExact(const Case& c)
             e.count(which == 0 ? "exact.aborted.reflimit" : "exact.aborted.stallreflimit");
          }
          std::string kind = which == 0 ? "exact reflimit" : "exact stallreflimit";
-         std::string m = judgeExact(sp, c, kind, Solver::ABORT_ITER, -1);
+         std::string m = judgeExact(sp, c, kind, Solver::ABORT_ITER, -1, r);
          if(m.empty()) m = resume(sp, kind);
          if(!m.empty())
          {
@@ -394,7 +411,7 @@ static Verdict runExact(const Case& c)
          aborted++;
          e.count("exact.aborted.timelimit");
       }
-      std::string m = judgeExact(sp, c, "exact timelimit", Solver::ABORT_TIME, -1);
+      std::string m = judgeExact(sp, c, "exact timelimit", Solver::ABORT_TIME, -1, 0);
       if(m.empty()) m = resume(sp, "exact timelimit");
       if(!m.empty())
       {
